@@ -188,11 +188,11 @@ func ZZ_C03_async() {
 // while the other lands and another client's real resolver meets its lock
 // (the secondary is prewritten before the primary).
 func ZZ_C03_2pc_delayed() {
-	zzC03Conc(0, zzParam("faults", 1), []string{"a", "x"}, 2)
+	zzC03Conc(0, zzParam("faults", 1), []string{"a", "b", "x"}, 3)
 }
 
 func ZZ_C03_async_delayed() {
-	zzC03Conc(1, zzParam("faults", 1), []string{"a", "x"}, 2)
+	zzC03Conc(1, zzParam("faults", 1), []string{"a", "b", "x"}, 3)
 }
 
 func ZZ_C03_1pc() {
